@@ -48,6 +48,18 @@ class Config:
         self.purify_div = purify_div
 
 
+def set_library_logging(debug):
+    import logging
+    lg = logging.getLogger('fast_ticc')
+    if not any(isinstance(h, logging.NullHandler) for h in lg.handlers):
+        lg.addHandler(logging.NullHandler())
+    lg.propagate = False
+    lg.setLevel(logging.DEBUG if debug else logging.WARNING)
+    for name, sub in list(logging.root.manager.loggerDict.items()):
+        if name.startswith('fast_ticc.') and isinstance(sub, logging.Logger):
+            sub.setLevel(logging.NOTSET)
+
+
 def _run_task(task):
     (idx, prefix, split_depth) = task
     cfg = _CONFIGS[idx]
@@ -63,8 +75,18 @@ def _run_task(task):
     ex.reset_hooks.append(symnp._reset_write_log)
     if _CHECK is not None and hasattr(_CHECK, 'reset'):
         ex.reset_hooks.append(_CHECK.reset)
+    def body(c):
+        # the library's diagnostic logging must not alter behaviour: where the harness asks for it, the
+        # log level (DEBUG on / off for every fast_ticc logger) is one more symbolic input of the path
+        if getattr(_CHECK, 'fork_logging', False):
+            dbg = bool(int(c.int('debug_logging', 0, 1)))
+            c.notes['debug_logging'] = dbg
+            set_library_logging(dbg)
+        else:
+            set_library_logging(False)
+        return cfg.fn(c, **cfg.params)
     try:
-        ex.run(lambda c: cfg.fn(c, **cfg.params))
+        ex.run(body)
     except BaseException as exc:  # noqa
         ex.errors.append({'kind': 'ENGINE', 'config': cfg.name, 'message': repr(exc),
                           'trace': traceback.format_exc(limit=20)})
